@@ -259,7 +259,7 @@ pub struct ExploreStats {
 /// Enumerate every schedule with at most `bound` preemptions. `check` inspects each complete execution and
 /// returns Some(description) on violation (which stops the search).
 pub fn explore<T: Send + 'static>(
-    programs: &[Program<T>],
+    make_programs: &dyn Fn() -> Vec<Program<T>>,
     bound: usize,
     deadline: Instant,
     stats: &mut ExploreStats,
@@ -271,7 +271,7 @@ pub fn explore<T: Send + 'static>(
             stats.capped = true;
             return None;
         }
-        let x = run_once(programs, &prefix);
+        let x = run_once(&make_programs(), &prefix);
         stats.schedules += 1;
         stats.points += x.points.len() as u64;
         stats.max_points = stats.max_points.max(x.points.len());
